@@ -186,6 +186,27 @@ fn c02_promote_list_to_set() {
 }
 
 fn cut_set_update(_s: &mut HashSet, _coupon: u32) {}
+static mut SET_PROMOTIONS: u32 = 0;
+/// promote_container_to_set without the coupon replay: the set it starts from (HashSet::default(), as in the
+/// real function's first line); the replay loop is c02_promote_list_to_set's subject
+fn rec_promote_to_set(_c: &Container, hll_type: HllType) -> Mode {
+    unsafe {
+        SET_PROMOTIONS += 1;
+    }
+    Mode::Set { set: HashSet::default(), hll_type }
+}
+fn cut_grow_set(_old: &HashSet, _t: HllType) -> Mode {
+    panic!("verif cut: grow_set reached within the first 8 updates of a sketch");
+}
+fn cut_array4_update(_a: &mut Array4, _coupon: u32) {
+    panic!("verif cut: an array-mode update reached while the sketch is still a list");
+}
+fn cut_array6_update(_a: &mut Array6, _coupon: u32) {
+    panic!("verif cut: an array-mode update reached while the sketch is still a list");
+}
+fn cut_array8_update(_a: &mut Array8, _coupon: u32) {
+    panic!("verif cut: an array-mode update reached while the sketch is still a list");
+}
 
 static mut ARRAY_PROMOTIONS: u32 = 0;
 static mut ARRAY_PROMOTION_LG_K: u8 = 0;
@@ -203,22 +224,34 @@ fn rec_promote_to_array(_c: &Container, _t: HllType, lg_config_k: u8) -> Mode {
 //@ timeout: 1200
 //@ functions: hll::sketch::HllSketch::update_with_coupon
 //@ functions: hll::sketch::promote_container_to_set
-//@ stubs: promote_container_to_array -> recorder (the coupon replay into the array is c02_promote_list_to_array*); HashSet::update -> no-op cut (the replay into the set is c02_promote_list_to_set)
-//@ bounds: every lg_k in 4..=21 and target type (symbolic); a history of 8 symbolic distinct coupons from the empty sketch
+//@ stubs: promote_container_to_array -> recorder (the coupon replay into the array is c02_promote_list_to_array*); promote_container_to_set -> HashSet::default() without the coupon replay (c02_promote_list_to_set); grow_set -> must-not-reach cut; HashSet::update -> no-op cut (the replay into the set is c02_promote_list_to_set); Array4/6/8::update -> must-not-reach cuts (the match on the mode enum is not folded by symbolic execution: without them every update explores all five modes)
+//@ bounds: every lg_k in 4..=21 and target type (symbolic); a history of 8 concrete distinct coupons from the empty sketch (the decision depends on the list being full and on lg_k only)
 //@ desc: mode life cycle as a function of lg_k: a full list goes straight to an HLL array iff lg_k < 8 and to a 2^5 set otherwise; the set is created with lg_size 5 <= lg_k - 3 (base case of the invariant lg_size <= lg_k - 3 under which c02_set_promotion_threshold_arithmetic shows that growth ends in the array promotion at 2^(lg_k-3) slots, which bounds the coupon-mode image by 8 + 4 * max(8, 3/4 * 2^(lg_k-3) + 1) bytes)
 #[kani::proof]
-#[kani::unwind(34)]
+#[kani::unwind(10)]
 #[kani::stub(promote_container_to_array, rec_promote_to_array)]
+#[kani::stub(grow_set, cut_grow_set)]
+#[kani::stub(promote_container_to_set, rec_promote_to_set)]
 #[kani::stub(crate::hll::hash_set::HashSet::update, cut_set_update)]
+#[kani::stub(Array4::update, cut_array4_update)]
+#[kani::stub(Array6::update, cut_array6_update)]
+#[kani::stub(Array8::update, cut_array8_update)]
 fn c18_mode_life_cycle_by_lg_k() {
     let lg_k: u8 = kani::any();
     kani::assume(lg_k >= 4 && lg_k <= 21);
     let t = any_type();
     unsafe {
         ARRAY_PROMOTIONS = 0;
+        SET_PROMOTIONS = 0;
     }
-    // (a) list -> ?
-    let c = any_coupons();
+    // eight concrete distinct coupons: the promotion decision depends on the list being full and on lg_k
+    // only; which coupons fill it is the subject of c02_list_update_step / c02_promote_list_to_*
+    let mut c = [0u32; 8];
+    let mut i = 0;
+    while i < 8 {
+        c[i] = crate::hll::pack_coupon((i as u32) * 7 + 1, (i as u8 % 5) + 1);
+        i += 1;
+    }
     let mut s = HllSketch::new(lg_k, t);
     let mut i = 0;
     while i < 8 {
@@ -230,7 +263,7 @@ fn c18_mode_life_cycle_by_lg_k() {
     if lg_k < 8 {
         assert!(promoted == 1 && unsafe { ARRAY_PROMOTION_LG_K } == lg_k, "lg_k < 8: a full list must be promoted straight to an array of lg_k");
     } else {
-        assert!(promoted == 0, "lg_k >= 8: a full list becomes a set first");
+        assert!(promoted == 0 && unsafe { SET_PROMOTIONS } == 1, "lg_k >= 8: a full list becomes a set first");
         match s.mode() {
             Mode::Set { set, hll_type } => {
                 assert!(*hll_type == t);
